@@ -120,6 +120,7 @@ func genCase(r *rand.Rand, idx int) caseSpec {
 			t.Keys = lastKeys
 		}
 		cs.Trigger = &t
+		var same *opSpec
 		for i, n := 0, 1+r.IntN(4); i < n; i++ {
 			w := randWriter(3)
 			w.Key = keyFor(w.Kind, 5+r.IntN(3)) // a key the trigger does not address
@@ -127,10 +128,16 @@ func genCase(r *rand.Rand, idx int) caseSpec {
 				// a racer on one of the very keys that are being removed (same value type)
 				p := cs.Pre[r.IntN(len(cs.Pre))]
 				w = opSpec{Id: w.Id, Kind: p.Kind, Key: p.Key}
+				same = &w
 			}
 			cs.Writers = append(cs.Writers, w)
 		}
-		if r.IntN(3) == 0 {
+		switch {
+		case same != nil && r.IntN(2) == 0:
+			// a write to that key strictly after the race: whatever the race did to the record, this
+			// acknowledged write has to be there after the reload
+			cs.Post = []opSpec{{Id: next(), Kind: same.Kind, Key: same.Key}}
+		case r.IntN(3) == 0:
 			cs.Post = []opSpec{randWriter(8)}
 		}
 	case "destroy":
@@ -240,13 +247,13 @@ type childSpec struct {
 }
 
 type witness struct {
-	Case     caseSpec     `json:"case"`
-	Findings []finding    `json:"findings"`
-	History  []histEntry  `json:"history"`
+	Case     caseSpec          `json:"case"`
+	Findings []finding         `json:"findings"`
+	History  []histEntry       `json:"history"`
 	Observed map[string]string `json:"observed"`
-	Notes    []string     `json:"notes,omitempty"`
-	Hooks    map[string]int64 `json:"hook_hits"`
-	Sentinel []string     `json:"sentinel,omitempty"`
+	Notes    []string          `json:"notes,omitempty"`
+	Hooks    map[string]int64  `json:"hook_hits"`
+	Sentinel []string          `json:"sentinel,omitempty"`
 }
 
 // account books one executed case into the accumulator.
@@ -360,7 +367,7 @@ func TestCheck(t *testing.T) {
 		"acknowledged = Set status NEW/UPDATED, Increment IsIncremented, PatchResult PATCHED/CREATED, Uint32SlicePush nil error, Delete status DELETED, a record returned by ShiftByKeys/ShiftExpiredTreasures, Destroy nil error; any gRPC error, INTERNAL_ERROR or missing reply = not acknowledged (the request may or may not have taken effect, both accepted)",
 		"requests that overlap on the logical clock may take effect in either order; an explicit Destroy counts as an acknowledged removal of every key, so writes that precede or overlap it may be gone; the automatic destroy after a last-record removal is not a client operation",
 		"a key whose last acknowledged operation is a removal must be absent after the reload (a removal that re-appears is reported with the clause 'resurrected', a lost write with 'lost-ack')",
-		"accumulator keys (Increment / Uint32SlicePush / PatchTreasures) are judged as sets of unique contributions; orderings among contributions that all overlap the same removal are not checked (weaker reading)",
+		"accumulator keys (Increment / Uint32SlicePush / PatchTreasures) are judged as sets of unique contributions; orderings among contributions that all overlap the same removal are not checked, and old contributions that survive a removal are not reported when a write on the same key overlapped that removal (the read-modify-write may have carried them; a live write/removal interleaving is C09/C11's question) — weaker reading",
 		"graceful stop = zeus.StopHydra as driven by rig.Stop (zeus' panic-signal path) while handlers are in flight; server.Stop() first drains gRPC (up to 60 s) before StopHydra, so the 'stop' scenario corresponds to that drain timing out or to the panic-signal path; requests refused with 'hydra is shutting down' are not acknowledged",
 		"V2 storage engine, one swamp, one island; subscribers, in-memory swamps and the V1 engine are not driven",
 		"a request that has not returned 100 virtual seconds after the race makes the case inconclusive here (bounded progress is C17's clause)",
@@ -372,16 +379,21 @@ func TestCheck(t *testing.T) {
 			Witness witness `json:"witness"`
 		}
 		rig.ReadJSON(p, &w)
+		// forced schedules are deterministic; natural races are re-run a few times
 		reps := 5
+		if w.Witness.Case.Forced != "" || w.Witness.Case.Scen == "marker" {
+			reps = 1
+		}
 		hit := 0
 		for i := 0; i < reps; i++ {
-			before := c.Violations()
-			runAndAccount(t, c, w.Witness.Case)
-			if c.Violations() > before || i == 0 {
+			cr := runCase(t, w.Witness.Case)
+			cr.Nontrivial = cr.Inconclusive == "" && cr.AckedRacers > 0
+			if len(cr.Verdicts) > 0 {
 				hit++
 			}
+			account(c, w.Witness.Case, cr)
 		}
-		fmt.Printf("REPLAY property=C16 case=%s repetitions=%d\n", w.Witness.Case.Name, reps)
+		fmt.Printf("REPLAY property=C16 case=%s repetitions=%d violated=%d\n", w.Witness.Case.Name, reps, hit)
 		return
 	}
 
@@ -410,6 +422,30 @@ func TestCheck(t *testing.T) {
 	c.Extra("marker_cases", nm)
 	c.Extra("generated_cases", len(cases)-nm)
 
+	// The 'parked' placements need hydra.summon.beforeRelease, a call site another property (C17/C18)
+	// owns. When the tree under test does not have it, those schedules cannot be forced at all; they
+	// are then run as natural races (and the evidence says so) instead of drowning the run in
+	// inconclusive cases. The four call sites this monitor proposes itself are not treated this way:
+	// a forced case whose own hook is not reached is inconclusive.
+	if !c.IsChild() {
+		probe := runCase(t, caseSpec{Name: "probe", Scen: "marker", IdleSec: 1, WriteSec: 1, Reopen: "idle", Init: "absent", Seq: "W",
+			Touch: []opSpec{{Id: 1, Kind: "set", Key: "s1"}}})
+		have := probe.HookHits["hydra.summon.beforeRelease"] > 0
+		c.Extra("hook_present:hydra.summon.beforeRelease", have)
+		c.Extra("hook_present:swamp.closeListener.afterRead", probe.HookHits["swamp.closeListener.afterRead"] > 0)
+		if !have {
+			conv := 0
+			for i := range cases {
+				if cases[i].Forced == "parked" {
+					cases[i].Forced = ""
+					cases[i].Name += "-as-natural"
+					conv++
+				}
+			}
+			c.Extra("parked_cases_run_as_natural(hook_absent)", conv)
+		}
+	}
+
 	if only := os.Getenv("C16_ONLY"); only != "" { // development aid: run the matching cases in this process
 		for _, cs := range cases {
 			if strings.Contains(cs.Name, only) {
@@ -420,7 +456,7 @@ func TestCheck(t *testing.T) {
 		}
 		return
 	}
-	batch := 4
+	batch := c.N(6, 20)
 	var specs []any
 	var batches [][]caseSpec
 	for i := 0; i < len(cases); i += batch {
@@ -428,7 +464,7 @@ func TestCheck(t *testing.T) {
 		specs = append(specs, childSpec{Cases: cases[i:j]})
 		batches = append(batches, cases[i:j])
 	}
-	res := c.Fanout(specs, rig.FanoutOpts{Par: 16, Timeout: 90 * time.Second, KeepLogs: os.Getenv("C16_DEBUG") != ""})
+	res := c.Fanout(specs, rig.FanoutOpts{Par: 16, Timeout: 240 * time.Second, KeepLogs: os.Getenv("C16_DEBUG") != ""})
 	for i, r := range res {
 		if os.Getenv("C16_DEBUG") != "" && (r.ExitErr != nil || r.TimedOut || r.NoPartial || len(r.Fatal) > 0) {
 			fmt.Printf("CHILD %d first=%s exit=%v timedout=%v nopartial=%v fatal=%v races=%d log=%s\n", i, batches[i][0].Name, r.ExitErr, r.TimedOut, r.NoPartial, r.Fatal, len(r.Races), r.LogPath)
